@@ -1046,6 +1046,8 @@ struct Verdict {
     lost: u64,
     /// the producer cannot extend this chain on a reference node either
     ext_blocked: bool,
+    /// came up behind the running tip with a stored window shorter than 2 * genesis period
+    window_short: bool,
 }
 
 /// what kind of failure an oracle reports; the listed findings explain only some kinds
@@ -1291,7 +1293,20 @@ fn judge(ctx: &Ctx, cp: &CrashPoint, out: &Result<Outcome, String>) -> Verdict {
         }
     }
     // ---- valid chain (C03 replay oracle on the restarted node)
+    // (one clause of that oracle - the stored window reaches down to tip - 2gp + 1 - does not apply to a node
+    // that came up BEHIND the tip the running node had reached: the running node had already purged for
+    // its own, higher tip before the crash)
+    let running_tip_id = before
+        .into_iter()
+        .chain(std::iter::once(after))
+        .filter_map(|m| m.snap.as_ref().map(|x| x.tip_id))
+        .max()
+        .unwrap_or(0);
     for f in &out.c03 {
+        if f.starts_with("stored chain window ends") && s.tip_id < running_tip_id {
+            v.window_short = true;
+            continue;
+        }
         fail(&mut v, Kind::C03, None, format!("restarted chain is not valid: {}", f));
     }
     // ---- supply conserved
@@ -2043,7 +2058,7 @@ fn main() {
             for (id, w) in &v.known {
                 let c = hits_per_hist.entry((hi, *id)).or_insert(0usize);
                 *c += 1;
-                if *c <= 8 {
+                if *c <= 3 {
                     summary.known_hit(id, case_no, w);
                 }
                 summary.count("known_finding_points", id);
@@ -2080,6 +2095,7 @@ fn main() {
             summary.count("clean_shutdown_point", &clean.to_string());
             summary.count("restarted_tip", v.tip_class);
             summary.count("blocks_lost", &v.lost.min(9).to_string());
+            summary.count("stored_window", if v.window_short { "shorter-after-crash-behind-the-running-tip" } else { "full" });
             summary.count("extension", if v.ext_blocked { "producer-fails-on-reference-node-too" } else { "checked" });
             summary.count("history_has_fork", &has_fork.to_string());
             summary.count("history_purged", &purged.to_string());
